@@ -44,7 +44,7 @@ var sctMuts = []string{"ext", "ext", "other-cert", "other-cert", "other-type", "
 
 var arrMuts = []string{"elem-type", "elem-type", "elem-drop-field", "b64", "b64"}
 
-var statusPool = []int{100, 101, 102, 199, 201, 202, 204, 206, 299, 300, 301, 302, 303, 304, 307, 308, 400, 401, 403, 404, 405, 408, 410, 413, 429, 499, 500, 501, 502, 503, 504, 599}
+var statusPool = []int{0, 1, 42, 99, 600, 601, 799, 999, 1000, 100, 101, 102, 199, 201, 202, 204, 206, 299, 300, 301, 302, 303, 304, 307, 308, 400, 401, 403, 404, 405, 408, 410, 413, 429, 499, 500, 501, 502, 503, 504, 599}
 
 func catalogue(method string) []string {
 	out := append([]string{}, commonMuts...)
@@ -69,7 +69,7 @@ func genMut(t *rapid.T, method string) Mut {
 	switch m.Kind {
 	case "status":
 		if rapid.IntRange(0, 2).Draw(t, "anystatus") == 0 {
-			m.N = rapid.IntRange(100, 599).Draw(t, "status")
+			m.N = rapid.IntRange(0, 999).Draw(t, "status")
 		} else {
 			m.N = rapid.SampledFrom(statusPool).Draw(t, "statusp")
 		}
@@ -168,8 +168,13 @@ func genCase(t *rapid.T) Case {
 		for i := 0; i < n; i++ {
 			c.Entries = append(c.Entries, genEntrySpec(t, fmt.Sprintf("e%d", i), 2))
 		}
-		c.A = rapid.SampledFrom([]uint64{0, 0, 1, 5, 1 << 40, 1<<63 - 4}).Draw(t, "start")
-		c.B = c.A + uint64(rapid.IntRange(0, 3).Draw(t, "span"))
+		if rapid.IntRange(0, 5).Draw(t, "bigbatch") == 0 {
+			// a large reply: the generated entries plus copies of one small well-formed entry
+			c.Fill = rapid.IntRange(60, 260).Draw(t, "fill")
+			c.FillPos = rapid.IntRange(0, 2).Draw(t, "fillpos")
+		}
+		c.A = rapid.SampledFrom([]uint64{0, 0, 1, 5, 1 << 40, 1<<63 - 400}).Draw(t, "start")
+		c.B = c.A + uint64(rapid.IntRange(0, 3).Draw(t, "span")) + uint64(c.Fill)
 		if rapid.IntRange(0, 24).Draw(t, "badrange") == 0 {
 			c.A, c.B = 5, 2
 		}
@@ -389,7 +394,7 @@ func doCall(ctx context.Context, s *scene, cl clients) (o outcome) {
 	case "AddChain", "AddPreChain":
 		cctx, cancel := context.WithTimeout(ctx, time.Duration(c.DeadlineS)*time.Second)
 		defer cancel()
-		submit := asn1Chain(s.chain.Submit)
+		submit := asn1Chain(s.submission())
 		if c.EmptyChain {
 			submit = nil
 		}
@@ -509,6 +514,12 @@ func checkClient(t *testing.T, c Case) (v harness.Verdict) {
 		v.Class("via-temporal-client")
 	}
 	v.Class(keyOptClass(c.KeyPEM, c.NoDER), fmt.Sprintf("siblings:%d", len(c.Siblings)))
+	if c.Fill > 0 {
+		v.Class("getentries:big-batch", fmt.Sprintf("getentries:count%%4=%d", len(s.entries)%4))
+	}
+	if c.Rekey {
+		v.Class("rekeyed-issuer")
+	}
 	if c.EmptyChain {
 		v.Class("empty-chain")
 		nm++
@@ -857,6 +868,6 @@ func (s *scene) judgeSCT(v *harness.Verdict, sct *ct.SignedCertificateTimestamp,
 // Client is the client half of C12.
 var Client = harness.Define(harness.Opts{
 	Name:  "client",
-	Rule:  "one call of one LogClient method (GetSTH, AddChain, AddPreChain - a quarter of the submissions and get-roots through a one-shard TemporalLogClient -, GetSTHConsistency, GetProofByHash, GetRawEntries, GetEntries, GetEntryAndProof, GetAcceptedRoots) by a client given its key as PublicKeyDER, as PEM PublicKey, as both, or as DER under the PEM of a decoy key (DER has precedence), with 0-2 other clients built before it in the same process from the same two keys, holding a P-256 / RSA-2048 / RSA-3072 log key (or, with AllowVerificationWithNonCompliantKeys, P-384 / P-521 / RSA-1024), against a scripted round tripper serving 1-3 answers (the last repeats); each answer is the truthful one (signed with the pool key over internal/rfc6962 inputs; chains and entries from internal/world) under 0-3 mutations (status 100..599, body read error, network error, odd headers, Content-Length 0 / short / long / 2^31 / 2^48 / 2^50 / 2^62 / 2^63-1 / invalid modelled as net/http delivers it, redirects, body replaced / truncated / extended, JSON fields dropped / wrongly typed / duplicated / re-cased / with broken base64, root hash or id of 0/31/33 bytes, foreign / decoy-key / flipped / empty signature, DigitallySigned truncated or followed by bytes, algorithm octets relabelled, other hash, timestamp / size / root / extensions changed after signing, signed version or signature type changed, SCT for another certificate / the other entry type, foreign or zero log id, sct_version != 0, undecodable entries). Runs under virtual time; submissions carry a virtual deadline. Non-trivial: >= 1 mutation",
+	Rule:  "one call of one LogClient method (GetSTH, AddChain, AddPreChain - a quarter of the submissions and get-roots through a one-shard TemporalLogClient -, GetSTHConsistency, GetProofByHash, GetRawEntries, GetEntries, GetEntryAndProof, GetAcceptedRoots) by a client given its key as PublicKeyDER, as PEM PublicKey, as both, or as DER under the PEM of a decoy key (DER has precedence), with 0-2 other clients built before it in the same process from the same two keys, holding a P-256 / RSA-2048 / RSA-3072 log key (or, with AllowVerificationWithNonCompliantKeys, P-384 / P-521 / RSA-1024), against a scripted round tripper serving 1-3 answers (the last repeats); each answer is the truthful one (signed with the pool key over internal/rfc6962 inputs; chains and entries from internal/world) under 0-3 mutations (status 0..1000, body read error, network error, odd headers, Content-Length 0 / short / long / 2^31 / 2^48 / 2^50 / 2^62 / 2^63-1 / invalid modelled as net/http delivers it, redirects, body replaced / truncated / extended, JSON fields dropped / wrongly typed / duplicated / re-cased / with broken base64, root hash or id of 0/31/33 bytes, foreign / decoy-key / flipped / empty signature, DigitallySigned truncated or followed by bytes, algorithm octets relabelled, other hash, timestamp / size / root / extensions changed after signing, signed version or signature type changed, SCT for another certificate / the other entry type, foreign or zero log id, sct_version != 0, undecodable entries, get-entries replies of 60-263 entries). Runs under virtual time; submissions carry a virtual deadline. Non-trivial: >= 1 mutation",
 	Quick: 8000, Thorough: 20000,
 }, genCase, checkClient)
